@@ -93,6 +93,24 @@ def template_fields(ctx):
                 "ObjectUpdateCompressedDataSerializer.TEMPLATE is not se.Template({...})")
     d = tnode.args[0]
     mod = ci.module
+
+    def flatten(dnode, depth=0):
+        """(key node, value node) pairs of a dict literal, expanding `**NAME` of module-level dict literals in order"""
+        pairs = []
+        for k, v in zip(dnode.keys, dnode.values):
+            if k is None:
+                sub = v
+                if isinstance(sub, ast.Name):
+                    sub = repo.module_assign(mod, sub.id)
+                if isinstance(sub, ast.Call) and sub.args and isinstance(sub.args[0], ast.Dict):
+                    sub = sub.args[0]
+                if not isinstance(sub, ast.Dict) or depth > 4:
+                    raise AnalysisError(f"C13: TEMPLATE unpacks {src(v)}, which is not a module-level dict literal")
+                pairs.extend(flatten(sub, depth + 1))
+            else:
+                pairs.append((k, v))
+        return pairs
+    pairs = flatten(d)
     opt = repo.cls("CompressedOption", TMPL)
     # CompressedOption(flag, spec) -> OptionalFlagged("Flags", IntFlag(CompressedFlags, U32), flag, spec)
     init = opt.methods["__init__"]
@@ -103,7 +121,7 @@ def template_fields(ctx):
     ctx.require(ap(sup[0].args[2]) == params[0] and ap(sup[0].args[3]) == params[1],
                 "CompressedOption no longer forwards (flag_val, spec) in order")
     fields = []
-    for k, v in zip(d.keys, d.values):
+    for k, v in pairs:
         ctx.require(isinstance(k, ast.Constant) and isinstance(k.value, str), "TEMPLATE key is not a string literal")
         gate = None
         spec = v
